@@ -64,6 +64,11 @@ M = [
     ("c12_will_retain_lost", "C12", "broker/client.go", "\t\tc.will = pkt.Will\n", "\t\tc.will = pkt.Will\n\t\tc.will.Retain = false\n"),
     ("c12_close_suppresses_will", "C12", "broker/client.go", "func (c *Client) Close() {\n", "func (c *Client) Close() {\n\tatomic.CompareAndSwapUint32(&c.state, clientConnected, clientDisconnected)\n"),
     ("c12_will_on_timeout_only", "C12", "broker/client.go", "\tif atomic.LoadUint32(&c.state) == clientConnected && c.will != nil {", "\tif atomic.LoadUint32(&c.state) == clientConnected && c.will != nil && c.tomb.Err() != ErrUnexpectedPacket {"),
+    # ---- C13
+    ("c13_setup_no_wait", "C13", "broker/backend.go", "\t\tcase <-activeClient.Closed():\n\t\t\t// continue\n", "\t\tcase <-activeClient.Closing():\n\t\t\t// continue\n"),
+    ("c13_no_setup_mutex", "C13", "broker/backend.go", "\t// acquire setup mutex\n\tm.setupMutex.Lock()\n\tdefer m.setupMutex.Unlock()\n", ""),
+    ("c13_clean_takeover_keeps_old", "C13", "broker/backend.go", "\t// kill existing client if session is taken\n\tif ok && existingSession.activeClient != nil {", "\t// kill existing client if session is taken\n\tif ok && existingSession.activeClient != nil && !clean {"),
+    ("c13_reuse_drops_stored", "C13 C08", "broker/backend.go", "\t\t// reuse session\n\t\tstoredSession.reuse()\n", "\t\t// reuse session\n\t\tstoredSession.reuse()\n\t\tstoredSession.MemorySession.Reset()\n"),
     # ---- C20
     ("c20_suback_reversed", "C20", "broker/client.go", "\t\tsuback.ReturnCodes[i] = subscription.QOS", "\t\tsuback.ReturnCodes[len(pkt.Subscriptions)-1-i] = subscription.QOS"),
     ("c20_ignore_unexpected", "C20", "broker/client.go", "\tdefault:\n\t\terr = c.die(ClientError, ErrUnexpectedPacket)\n\t}\n\n\t// return eventual error", "\tdefault:\n\t}\n\n\t// return eventual error"),
